@@ -22,8 +22,12 @@ def _err_helper(ctx):
     for f in P.methods_of(R.S):
         if f is R.handler or f is R.queue_drain:
             continue
-        types = [t for c, d, t, tgt in U.send_sites(ctx, f)]
-        if 'apply_command_response' in types and any(isinstance(c.func, ast.Name) and c.func.id in f.params for c in P.calls_in(f)):
+        sites = [(c, d, t) for c, d, t, tgt in U.send_sites(ctx, f)]
+        types = [t for c, d, t in sites]
+        # ... and the error it reports is one of its own parameters (a function that reports one fixed reason inline is not the helper)
+        err_is_param = any(d is not None and t == 'apply_command_response' and isinstance(U.dict_get(d, 'error'), ast.Name) and U.dict_get(d, 'error').id in f.params
+                           for c, d, t in sites)
+        if 'apply_command_response' in types and err_is_param and any(isinstance(c.func, ast.Name) and c.func.id in f.params for c in P.calls_in(f)):
             return f
     return None
 
@@ -57,6 +61,56 @@ def _consumption_events(ctx, func, cbname, helper):
             out.append('use')
         return out
     return events
+
+
+@rule('R-err-helper-delivers', 'handing a callback to the error helper consumes it: for a real callback the helper invokes it '
+                               'once, for a forwarded request (node, id) it sends the error answer once, and only for None it does nothing')
+def r_err_helper_delivers(ctx):
+    P, R = ctx.P, ctx.R
+    helper = _err_helper(ctx)
+    if helper is None:
+        # errors are reported inline at the sites (covered by R-cb-linear / R-disposition): nothing to check here
+        ctx.ok('no separate error helper in this tree', '', 'error answers are given inline', nontrivial=False)
+        return
+    cb = helper.params[2] if len(helper.params) > 2 else helper.params[-1]
+    ex = U.explorer(ctx, helper)
+    cfg = ex.cfg
+    sends = U.send_sites(ctx, helper)
+
+    def ev(node):
+        out = []
+        if node.kind not in ('stmt', 'cond') or node.ast is None:
+            return out
+        for c in [x for x in U.walk_no_nested(node.ast) if isinstance(x, ast.Call)]:
+            if isinstance(c.func, ast.Name) and c.func.id == cb:
+                out.append('call')
+            for sc, d, t, tgt in sends:
+                if sc is c and t == 'apply_command_response':
+                    out.append('answer')
+        return out
+    cbt = ex.tb.term(ast.Name(id=cb, ctx=ast.Load()))
+    init = frozenset([('none', cbt, False)])
+    res = ex.run(init=init, track=ev, follow_exc=False)
+    outcomes = set(cnt for fs, cnt in res.cstates.get(cfg.exit.id, ()))
+    inst = 'error helper delivers exactly once for a callback that is not None'
+    ctx.tick(len(outcomes))
+    bad = [dict(c) for c in outcomes if dict(c).get('call', 0) + dict(c).get('answer', 0) != 1]
+    if outcomes and not bad:
+        ctx.ok(inst, helper.loc(), '%d path classes with callback not None: each invokes it or sends the error answer, once' % len(outcomes))
+    else:
+        ctx.violation('%s:error-not-delivered' % helper.qualname, helper.loc(),
+                      'with a callback that is not None the error helper can return having delivered %s: the submitter of a failed command is never told (or told twice)'
+                      % (sorted(bad[0].items()) if bad else 'nothing (no normal exit found)'), instance=inst)
+    # None: nothing happens
+    res0 = ex.run(init=frozenset([('none', cbt, True)]), track=ev, follow_exc=False)
+    out0 = set(cnt for fs, cnt in res0.cstates.get(cfg.exit.id, ()))
+    inst = 'error helper ignores a missing callback'
+    ctx.tick()
+    if all(not dict(c) for c in out0) and out0:
+        ctx.ok(inst, helper.loc(), 'no call / answer on the None path')
+    else:
+        ctx.violation('%s:none-callback-used' % helper.qualname, helper.loc(), 'with callback None the helper still calls / answers', instance=inst)
+    ctx.expect_min(2)
 
 
 @rule('R-cb-linear', 'a callback taken from the queue or from a waiting table is consumed exactly once on every path: '
